@@ -62,6 +62,10 @@ func genName() string {
 	return string(b)
 }
 
+// largeBodies: C12 sometimes draws a body of a few MiB; C18, which preempts at statement
+// level, does not (a run would take millions of steps).
+var largeBodies bool
+
 func genRequest() request {
 	r := request{Name: genName()}
 	r.Type = envTypes[simrt.ChoiceBias("env.type", len(envTypes), 0.4)]
@@ -71,7 +75,7 @@ func genRequest() request {
 		r.SeqID = int32(rnd("env.seqid-rnd"))
 	}
 	r.Body = genVal(ref.TStruct, 0, genOpts{maxDepth: 2})
-	if simrt.Flip("env.large-body", 0.004) {
+	if largeBodies && simrt.Flip("env.large-body", 0.004) {
 		// a body with a binary field of a few MiB (content that is not all zeros)
 		sz := (2 << 20) + 1 + ch("env.large-body-extra", 3)*((1<<19)+5)
 		bs := make([]byte, sz)
@@ -281,6 +285,8 @@ func RunC12(cfg simrt.Config, o world.Opts) *world.Result {
 	}
 	h := world.NewHasher()
 	s.Run("main", func() {
+		largeBodies = true
+		defer func() { largeBodies = false }()
 		s.ChunkP0 = []float64{1, 0.5, 0}[ch("sim.chunkp0", 3)]
 		kind := o.Kind
 		if kind == "" {
